@@ -21,9 +21,8 @@ CONSTANT Eps                       \* entry points included in this run
 VARIABLES scn, pc, fs, base, todo, plan, touched
 vars == <<scn, pc, fs, base, todo, plan, touched>>
 NoPlan == [mode |-> "-", mkdir |-> <<>>, target |-> <<>>]
-Space == {s \in Scenarios : s.ep \in Eps}
 
-Init == /\ scn \in Space
+Init == /\ InSpace(scn, Eps)
         /\ pc = "start" /\ fs = FS0 /\ base = Out /\ todo = <<>> /\ plan = NoPlan /\ touched = {}
 
 \* ---- regctl artifact get
